@@ -131,11 +131,16 @@ func Disassemble(main *runtime.Function, globals []Global, n int) map[string][]b
 			packages = packages[:]
 		}
 
+		// Collect the functions in the order they have been found, which
+		// does not depend on the iteration order of a map, and keep that
+		// order for the functions that are on the same line.
 		functions := make([]*runtime.Function, 0, len(funcs))
-		for fn := range funcs {
-			functions = append(functions, fn)
+		for _, fn := range allFunctions {
+			if _, ok := funcs[fn]; ok {
+				functions = append(functions, fn)
+			}
 		}
-		sort.Slice(functions, func(i, j int) bool { return funcs[functions[i]] < funcs[functions[j]] })
+		sort.SliceStable(functions, func(i, j int) bool { return funcs[functions[i]] < funcs[functions[j]] })
 
 		for _, fn := range functions {
 			if fn.Macro {
